@@ -36,12 +36,22 @@ fn webauthn_rk(resident_key: Option<u8>, require_rk: bool, authenticator_support
     }
 }
 
+/// allow list of the cell's assertions: the new credential, with the RP's older credential before or
+/// after it when the cell has one
+fn allow_of(with_sibling: bool, sibling_first: bool) -> Vec<IdRef> {
+    match (with_sibling, sibling_first) {
+        (false, _) => vec![IdRef::Last],
+        (true, true) => vec![IdRef::NthOfRp(0), IdRef::Last],
+        (true, false) => vec![IdRef::Last, IdRef::NthOfRp(0)],
+    }
+}
+
 impl Family for C11Family {
     fn info(&self) -> FamilyInfo {
         FamilyInfo {
             id: "C11",
             level: "exploration",
-            rule: "the finite product store capability{full, non-discoverable only, forced} x residentKey{absent, discouraged, preferred, required} x requireResidentKey{2} x credProps{absent, false, true} at WebAuthn level (72 cells) plus capability{3} x rk{2} at CTAP level (6 cells); run index i covers cell i mod 78; each cell registers and then authenticates with the new credential allowed; nuisance parameters (store topology, yields, user handles, counters, id length, authenticator configuration incl. hmac-secret with a prf request riding on the registration, a capability change between the authenticator's first getInfo and the registration, a second authenticator keeping the shared store busy) are seeded. distinct_nontrivial = product cells covered.",
+            rule: "the finite product store capability{full, non-discoverable only, forced} x residentKey{absent, discouraged, preferred, required} x requireResidentKey{2} x credProps{absent, false, true} at WebAuthn level (72 cells) plus capability{3} x rk{2} at CTAP level (6 cells); run index i covers cell i mod 78; each cell registers and then authenticates with the new credential allowed; nuisance parameters (store topology, yields, user handles, counters, id length, authenticator configuration incl. hmac-secret with a prf request riding on the registration, a capability change between the authenticator's first getInfo and the registration, a second authenticator keeping the shared store busy, user handles of 65-128 bytes in 1 run of 6, an older credential of the same RP with independently chosen discoverability named in the assertions' allow lists in 1 run of 3 on stores that support both kinds) are seeded. distinct_nontrivial = product cells covered.",
             assumptions: &["the WebAuthn Level 3 mapping table for residentKey/requireResidentKey is restated independently in the oracle"],
             real: &["Client::{register,authenticate} incl. map_rk and credProps output", "Authenticator::{make_credential,get_assertion,get_info}", "DiscoverabilitySupport::is_passkey_discoverable"],
             stubs: &["executor", "SimStore seam + reference store (capability knob)", "SimUser", "seeded RNG behind the hook"],
@@ -95,6 +105,11 @@ impl Family for C11Family {
             };
             let mut s = gen_reg(&mut r, rp);
             s.algs = vec![-7];
+            // one cell run in six: a user handle longer than the 64 bytes WebAuthn allows (the library
+            // does not refuse it, so what is stored and returned must follow the same rule; round 11)
+            if r.chance(1, 6) {
+                s.user_id = r.bytes_range(65, 128);
+            }
             // (an exclude list that matches nothing must not change anything)
             s.exclude = if r.chance(1, 3) { Some((0..r.range(1, 3)).map(|_| IdRef::Unknown(r.bytes(16))).collect()) } else { None };
             s.sel = Some(Sel { rk, require_rk, uv: *r.pick(&[0, 1, 2]) });
@@ -122,6 +137,9 @@ impl Family for C11Family {
             if no_uv {
                 s.uv = false;
             }
+            if r.chance(1, 6) {
+                s.user_id = r.bytes_range(65, 128);
+            }
             reg_kind = OpKind::MakeCredential(s);
         }
         let contended = r.chance(1, 4);
@@ -138,6 +156,20 @@ impl Family for C11Family {
             actor.ops.push(plain_op(OpKind::GetInfo { via_trait: false }));
             actor.ops.push(plain_op(OpKind::SetCapability { capability: cell_cap, verification: actor.verification }));
         }
+        // one cell run in three on a store that supports both kinds: the RP already holds a credential
+        // of this user agent whose discoverability was chosen independently; the assertions then name
+        // both, so that the user handle returned must be the one of the credential that was used (round 11)
+        let with_sibling = r.chance(1, 3) && cell_capability == Capability::Full;
+        if with_sibling {
+            let mut s = gen_mc(&mut r, rp_effective(rp));
+            s.exclude = None;
+            s.rk = r.bool();
+            if no_uv {
+                s.uv = false;
+            }
+            actor.ops.push(plain_op(OpKind::MakeCredential(s)));
+        }
+        let sibling_first = r.bool();
         let mut op = plain_op(reg_kind);
         op.yields = gen_yields(&mut r, 8, 2);
         // one cell run in ten: the store refuses the first save (key store full); whatever the client makes of
@@ -148,11 +180,11 @@ impl Family for C11Family {
         actor.ops.push(op);
         let auth_kind = if r.bool() {
             let mut s = gen_auth(&mut r, rp);
-            s.allow = Some(vec![IdRef::Last]);
+            s.allow = Some(allow_of(with_sibling, sibling_first));
             OpKind::Authenticate(s)
         } else {
             let mut s = gen_ga(&mut r, rp_effective(rp));
-            s.allow = Some(vec![IdRef::Last]);
+            s.allow = Some(allow_of(with_sibling, sibling_first));
             s.up = true;
             OpKind::GetAssertion(s)
         };
@@ -190,7 +222,7 @@ impl Family for C11Family {
         let rec = run_and_measure(c, stats);
         let mut j = Judge::new("C11", scn, &rec);
         stats.cells_total = CELLS;
-        for p in ["cell_on_contended_store", "required_rk_refused_by_non_discoverable_store", "forced_discoverable_overrides_request", "cred_props_reported", "assertion_returned_user_handle", "assertion_without_user_handle", "capability_changed_before_registration", "cred_props_with_prf_on_hmac_authenticator", "registered_on_authenticator_without_user_verification", "options_through_json", "unknown_resident_key_string", "options_json_round_trip_refused", "capability_changed_after_registration"] {
+        for p in ["cell_on_contended_store", "required_rk_refused_by_non_discoverable_store", "forced_discoverable_overrides_request", "cred_props_reported", "assertion_returned_user_handle", "assertion_without_user_handle", "capability_changed_before_registration", "cred_props_with_prf_on_hmac_authenticator", "registered_on_authenticator_without_user_verification", "options_through_json", "unknown_resident_key_string", "options_json_round_trip_refused", "capability_changed_after_registration", "user_handle_longer_than_64_bytes", "two_allowed_credentials_differ_in_discoverability", "older_credential_used"] {
             stats.declare_probe(p);
         }
         if rec.panic.is_some() || rec.outcome != Outcome2::Done {
@@ -205,7 +237,13 @@ impl Family for C11Family {
             stats.probe("cell_on_contended_store");
         }
         // the registration is the first ceremony; harness operations may precede it
-        let Some(reg_idx) = c.actors[0].ops.iter().position(|o| matches!(o.kind, OpKind::Register(_) | OpKind::MakeCredential(_))) else { return Vec::new() };
+        // (the last one: a cell may first give the RP an older credential)
+        let Some(reg_idx) = c.actors[0].ops.iter().rposition(|o| matches!(o.kind, OpKind::Register(_) | OpKind::MakeCredential(_))) else { return Vec::new() };
+        let sibling = c.actors[0].ops[..reg_idx]
+            .iter()
+            .position(|o| matches!(o.kind, OpKind::MakeCredential(_)))
+            .and_then(|i| rec.op(0, i))
+            .and_then(|o| applied(&rec, o).iter().find(|a| a.1).map(|a| a.2.clone()));
         // capability in force at the registration
         // (a change the harness could not apply because another task held the store's lock does not count)
         let cap = c.actors[0].ops[..reg_idx]
@@ -271,6 +309,9 @@ impl Family for C11Family {
                 }
             }
             if let Some(saved) = &saved {
+                if saved.user_handle.as_ref().is_some_and(|h| h.len() > 64) {
+                    stats.probe("user_handle_longer_than_64_bytes");
+                }
                 let want = discoverable(cap, expected_rk);
                 if saved.user_handle.is_some() != want {
                     j.fail("user-handle-storage", format!("store capability {cap:?}, rk {expected_rk}: the credential should {} a user handle but the stored record has {:?}", if want { "store" } else { "not store" }, saved.user_handle));
@@ -315,6 +356,15 @@ impl Family for C11Family {
                             if h.is_some() != saved.user_handle.is_some() {
                                 j.fail("assertion-user-handle", format!("the credential was stored with user handle {:?} but assertion #{} returned {:?}", saved.user_handle, a.idx, h));
                             }
+                        } else if let Some(sib) = sibling.as_ref().filter(|s| s.id == id && s.id != saved.id) {
+                            // the RP's older credential answered: its own record decides
+                            stats.probe("older_credential_used");
+                            if h.is_some() != sib.user_handle.is_some() {
+                                j.fail("assertion-user-handle", format!("the credential used (the RP's older one) was stored with user handle {:?} but assertion #{} returned {:?}", sib.user_handle, a.idx, h));
+                            }
+                        }
+                        if sibling.as_ref().is_some_and(|s| s.user_handle.is_some() != saved.user_handle.is_some()) {
+                            stats.probe("two_allowed_credentials_differ_in_discoverability");
                         }
                     }
                 }
